@@ -9,6 +9,12 @@ CHECKS = {
              text='bounded: committees of 1..3 (quick) / 1..5 (thorough) validators, every leader-flag pattern, both modes, all input orders; within that every u64 weight, view and frequency (0 included) is covered by solver verdicts: no panic, result is leader-eligible, round-robin formula, weighted walk interval, order independence',
              note='trusted: native models of Vec/BTreeMap/iterators; keccak mod W abstracted as an arbitrary residue < W; symbolic/symbolic division as an uninterpreted function; statistical uniformity of Keccak is outside the claim', ref='4/C11'),
 }
+CHECKS['C02'] = dict(tech='MIR symbolic execution (mirsym) of get_implied_block / high_vote / high_qc / Signers::weight + z3; counterexamples replayed against the real crates',
+    text='bounded (committees of 1..3 quick / 1..4 thorough, one timeout-vote entry per signer): one inductive step of the re-proposal rule (lock preservation lemma with non-vacuity twin), totality, and conformance of the real implied-block function to the reference model transcribed from spec/informal-spec/types.rs, for all weights, high votes and high certificates',
+    note='trusted: native container models, opaque payload hashes; the induction over views that lifts the lemma to histories is a paper argument (with C03, C07); symmetry reduction over interchangeable validators', ref='4/C02')
+CHECKS['C04'] = dict(tech='MIR symbolic execution (mirsym) of CommitQC/TimeoutQC verify+add, View/ReplicaCommit/ReplicaTimeout/ProposalJustification/LeaderProposal/ReplicaNewView/FinalBlock::verify with an ideal (ghost) signature model + z3',
+    text='bounded (committees 1..3 / 1..4, <= 2 / 3 timeout-vote groups, bitmap lengths N-1..N+1, one nested certificate): verify()==Ok is equivalent to the acceptance condition of the statement on every path; no input panics; add()==Ok iff its condition and Err leaves the certificate unchanged; certificates assembled by add verify iff the weight reaches the quorum',
+    note='trusted: ideal signature model (BLS itself, hashing, rogue keys outside), BitVec as list of Booleans, native container models', ref='4/C04')
 NA = {
  'C01': 'agreement quantifies over all multi-node schedules x Byzantine behaviours x crash points of the async replica system; no bounded solver encoding of the real replicas is within reach (its local obligations are decided under C02, C03, C04, C05, C07, C11)',
  'C06': 'liveness over fair infinite suffixes from adversarially reached states; not expressible as a bounded symbolic-execution query',
